@@ -25,7 +25,7 @@ def run(tier):
     common.replay_witnesses(ck, ["hook"])
     common.replay_known(ck)
     avoid = ck.findings.avoid_tags()
-    n = 2500 if quick else 60000
+    n = 2500 if quick else 60000 * common.TS
     plist = []
     for name, prof in profiles(avoid):
         rng = ck.rng.fork(name)
@@ -35,7 +35,7 @@ def run(tier):
 
     from ..gen import feat_cls
     rh = ck.rng.fork("hostclasses")
-    for i in range(300 if quick else 8000):
+    for i in range(300 if quick else 8000 * common.TS):
         plist.append({"name": "hostcls/%d" % i, "steps": [("snip", feat_cls.host_class_program(rh.fork(str(i))))], "mods": [], "hostclasses": True})
 
     def seen(p, m, res):
